@@ -232,6 +232,14 @@ func observer(point string, obj any, a, b int64) {
 	case "pf.released":
 		ensureLoadEnd()
 		put(event{Ev: "released", F: idOf(filepath.Base(s)), Name: filepath.Base(s)})
+	case "file.remove":
+		// the last steps of a deletion (Sealed.Suicide removes *.index.del last, Active.Suicide *.docs.del): the deletion
+		// has run to its end - whatever path it believed the files to have
+		if strings.HasSuffix(s, ".index.del") || strings.HasSuffix(s, ".docs.del") {
+			ensureLoadEnd()
+			fr := fracOfPath(s)
+			put(event{Ev: "delend", F: idOf(fr), Name: fr})
+		}
 	case "file.rename":
 		// the hook also fires after a rename that found nothing to rename (no .docs next to .sdocs):
 		// the deletion has begun on disk when the *.del file really exists
@@ -673,7 +681,7 @@ func runOne(run int, work string) (trace []byte, out []byte, fatal string) {
 	rng := rand.New(rand.NewSource(int64(seed)))
 	dir := filepath.Join(work, fmt.Sprintf("r%d", run))
 	os.MkdirAll(dir, 0o755)
-	defer os.RemoveAll(dir)
+	defer func() { os.RemoveAll(dir) }()
 	logp := filepath.Join(work, fmt.Sprintf("r%d.log", run))
 	defer os.Remove(logp)
 	total := 3000 + 1500*rng.Intn(4)
@@ -681,6 +689,15 @@ func runOne(run int, work string) (trace []byte, out []byte, fatal string) {
 	skip := rng.Intn(2) == 0
 	var all bytes.Buffer
 	for ph := 0; ph < *fPhases; ph++ {
+		// between two lives of the store the data directory may be moved (another mount point, a copied volume, a
+		// relative vs absolute path): everything the store persisted about its fractions has to work from the new
+		// path (.frac-cache records the paths of the sealed fractions)
+		if ph > 0 && rng.Intn(3) == 0 {
+			moved := filepath.Join(work, fmt.Sprintf("r%d-m%d", run, ph))
+			if os.Rename(dir, moved) == nil {
+				dir = moved
+			}
+		}
 		args := []string{"-child", "-dir", dir, "-log", logp, "-seed", fmt.Sprint(seed), "-phase", fmt.Sprint(ph),
 			"-ops", fmt.Sprint(6 + rng.Intn(12)), "-total", fmt.Sprint(total), "-fracsize", fmt.Sprint(fracsz)}
 		if skip {
